@@ -589,6 +589,15 @@ func (e *Engine) mapUpdate(st *State, m MapRef, key, val Value) {
 		if hit.IsFalse() {
 			continue
 		}
+		if !hit.IsTrue() {
+			// decide with the path condition where it can (e.g. keys assumed distinct)
+			if !e.feasible(st, hit) {
+				continue
+			}
+			if !e.feasible(st, smt.Not(hit)) {
+				hit = smt.True
+			}
+		}
 		if hit.IsTrue() {
 			ne[i].V = val
 			any = smt.True
